@@ -71,6 +71,16 @@ POOL_ASCII = "abcdefghijklmnopqrstuvwxyzABCDEFGHIJKLMNOPQRSTUVWXYZ0123456789"
 POOL_ODD = [" ", "\t", "\n", "́", "̈", "é", "µ", "ß", "中", "文", "😀", "𝛼", "\x00", "\"", "'", "\\", "/", ".", "=", "\r", "​", " "]
 
 
+# separator characters of element names: the ones a loader might be tempted to split a member name / key on
+SEPS = ["_", "-", ".", " ", ":", "/", "+", ",", ";", "|", "=", "#", "@", "·", "–", "‿", "＿", "->", "__", "_-", ". "]
+SEP_SINGLE = sorted({c for s_ in SEPS for c in s_})
+NAME_STEMS = ["Fe56", "Zn66", "Ca44", "P31", "Au197", "A", "b", "corr", "norm", "bg", "1", "56", "é", "中", "x"]
+
+
+def rnd_sep(rng) -> str:
+    return "_" if rng.random() < 0.45 else rng.choice(SEPS)
+
+
 def rnd_str(rng, lo, hi, odd=0.3, nul_end_ok=False) -> str:
     n = rng.randint(lo, hi)
     s = "".join(rng.choice(POOL_ODD) if rng.random() < odd else rng.choice(POOL_ASCII) for _ in range(n))
@@ -257,7 +267,11 @@ class C01(Prop):
     cases = {"quick": 600, "thorough": 12000}
     rule = ("random Laser / spot / SRR lasers (equal-shape layers, shapes from 1x1, 1-8 elements with unicode names incl. tabs, "
             "combining marks, non-BMP, >32 chars; 15 field dtypes; NaN payloads/inf/-0.0 data), calibrations with 0..6 points, "
-            "half-NaN rows, all seven built-in weightings and custom weights, differing lengths, info dicts incl. empty "
+            "half-NaN rows, all seven built-in weightings and custom weights, differing lengths; lasers without any calibration "
+            "point whose calibrations still carry unit / weighting (built-in, custom with no weights) / rsq / error, identity "
+            "and fitted lines mixed (15% of the full-size cases); element names around separator characters (_ - . space : / "
+            "| ...; a name continuing another element's name past the separator, names sharing the text before it; 25% of "
+            "names, in every stream incl. the 0.6/0.7 files); info dicts incl. empty "
             "keys/values and keys colliding after tab replacement, inexact config floats, warm-up, sub-pixel offsets; "
             "real npz.save -> npz.load chains of length 1-4 and harness-written 0.6/0.7 layout files; only the loaded object "
             "is observed. non-trivial = every case (each has >=1 named feature); distinct by canonical case hash")
@@ -276,12 +290,34 @@ class C01(Prop):
     ]
 
     # ------------------------------------------------------------------ generator
-    def gen_name(self, rng, used):
+    def gen_sep_name(self, rng, used):
+        """element names built around separator characters ('Fe56_corr', 'Zn66_norm_Ca44', 'Ca44-bg', 'a.b', '_x', 'x_',
+        '__'), also names that extend another element's name past a separator ('A', 'A_b') and names that share the text
+        before the separator ('Fe56_corr', 'Fe56_norm')"""
+        r = rng.random()
+        stem = lambda: rng.choice(NAME_STEMS) if rng.random() < 0.8 else rnd_str(rng, 1, 4, odd=0.3)
+        if r < 0.3 and used:
+            base = rng.choice(sorted(used))
+            if rng.random() < 0.5:  # the text before the first separator of an existing name, or that name itself
+                cut = min([base.find(c) for c in SEP_SINGLE if base.find(c) > 0] or [len(base)])
+                base = base[:cut]
+            return base + rnd_sep(rng) + stem()
+        if r < 0.42:
+            return rng.choice([rnd_sep(rng) + stem(), stem() + rnd_sep(rng), rnd_sep(rng), rnd_sep(rng) + rnd_sep(rng),
+                               rnd_sep(rng) + stem() + rnd_sep(rng)])
+        s = stem()
+        for _ in range(rng.choice([1, 1, 1, 2, 2, 3])):
+            s += rnd_sep(rng) + stem()
+        return s
+
+    def gen_name(self, rng, used, sep=0.25):
         while True:
             r = rng.random()
-            if r < 0.35:
+            if r < sep:
+                s = self.gen_sep_name(rng, used)
+            elif r < 0.45:
                 s = rng.choice(["A1", "B2", "Ca43", "P31", "Fe56", "Au197", "a b", "Zn66->82", "[238U]+"])
-            elif r < 0.55:
+            elif r < 0.6:
                 s = rnd_str(rng, 1, 6, odd=0.0)
             elif r < 0.9:
                 s = rnd_str(rng, 1, 10, odd=0.4)
@@ -320,6 +356,37 @@ class C01(Prop):
             "error": None if rng.random() < 0.4 else rnd_float_tok(rng),
             "points": points, "weights": weights,
         }
+
+    def gen_empty_cal(self, rng, identity):
+        """a calibration without points that nevertheless carries a unit / weighting / rsq / error (entered before any
+        standard was measured); `identity`: intercept 0 (either sign) and gradient 1"""
+        t = core.tok
+        if identity:
+            intercept, gradient = t(-0.0 if rng.random() < 0.15 else 0.0), t(1.0)
+        else:
+            r = rng.random()
+            if r < 0.3:
+                intercept, gradient = t(0.0), rnd_float_tok(rng)
+            elif r < 0.6:
+                intercept, gradient = rnd_float_tok(rng), t(1.0)
+            else:
+                intercept, gradient = rnd_float_tok(rng), rnd_float_tok(rng)
+        r = rng.random()
+        if r < 0.2:
+            weights = "Equal"
+        elif r < 0.55:
+            weights = rng.choice(BUILTIN[1:])
+        else:  # custom weighting, no weights yet
+            name = rng.choice(["custom", "Custom", "w", "", "1/σ²", "x ", "Equal ", "equal", rnd_str(rng, 1, 32, odd=0.3)])
+            weights = {"name": "custom" if name in BUILTIN else name, "values": []}
+        unit = "" if rng.random() < 0.25 else rng.choice(["ppm", "µg/g", "ppb\t", "mg kg⁻¹", " ", rnd_str(rng, 1, 32, odd=0.3),
+                                                          rnd_str(rng, 32, 32, odd=0.1)])
+        c = {"intercept": intercept, "gradient": gradient, "unit": unit,
+             "rsq": None if rng.random() < 0.5 else rnd_float_tok(rng),
+             "error": None if rng.random() < 0.5 else rnd_float_tok(rng), "points": [], "weights": weights}
+        if c["unit"] == "" and c["weights"] == "Equal" and c["rsq"] is None and c["error"] is None:
+            c[rng.choice(["rsq", "error"])] = rnd_float_tok(rng)
+        return c
 
     def gen_info(self, rng):
         r = rng.random()
@@ -382,7 +449,7 @@ class C01(Prop):
         return {"class": "srr", "spotsize": core.tok(rnd_pos_float(rng)), "speed": core.tok(rnd_pos_float(rng)),
                 "scantime": core.tok(scantime), "warmup": core.tok(warmup), "offsets": offsets}
 
-    def gen_laser(self, rng, cls=None, old_layout=False):
+    def gen_laser(self, rng, cls=None, old_layout=False, empty_cals=False):
         cls = cls or rng.choice(["laser", "laser", "spot", "srr", "srr"])
         shape = [rng.choice([1, 1, 2, 3, 5]), rng.choice([1, 2, 3, 4, 7])]
         nlayers = rng.choice([2, 2, 3, 4]) if cls == "srr" else 1
@@ -404,8 +471,16 @@ class C01(Prop):
             elements.append({"name": name, "dtype": dtype, "bits": [self.gen_bits(rng, dtype, size) for _ in range(nlayers)]})
         idx = list(range(nel))
         rng.shuffle(idx)
-        idx = idx[: rng.choice([nel, nel, max(0, nel - 1), 0])]
-        cals = [[i, self.gen_cal(rng)] for i in idx]
+        if empty_cals:
+            # no element of the laser has a calibration point (the packed table has zero-length point / weight columns),
+            # yet the calibrations are not the default one; identity and fitted-looking lines mixed
+            idx = idx[: rng.choice([nel, nel, nel, max(1, nel - 1), 1])]
+            mode = rng.choice(["identity", "identity", "mixed", "mixed", "mixed", "other"])
+            cals = [[i, self.gen_empty_cal(rng, mode == "identity" or (mode == "mixed" and (k == 0 or rng.random() < 0.5)))]
+                    for k, i in enumerate(idx)]
+        else:
+            idx = idx[: rng.choice([nel, nel, max(0, nel - 1), 0])]
+            cals = [[i, self.gen_cal(rng)] for i in idx]
         return {"cls": cls, "shapes": [shape] * nlayers, "elements": elements, "cals": cals,
                 "config": self.gen_config(rng, cls, nlayers), "info": self.gen_info(rng)}
 
@@ -422,7 +497,7 @@ class C01(Prop):
                     "elements": [{"name": "A", "dtype": "<f8", "bits": [[t(1.5)], [t(2.5)]]}], "cals": [], "config": cfg,
                     "info": [], "stem": "laser", "chain": rng.choice([1, 2, 3])}
         kind = "layouts" if rng.random() < 0.3 else "roundtrip"
-        case = {"kind": kind, **self.gen_laser(rng, old_layout=(kind == "layouts"))}
+        case = {"kind": kind, **self.gen_laser(rng, old_layout=(kind == "layouts"), empty_cals=rng.random() < 0.15)}
         case["stem"] = rng.choice(["laser", "a b", "x.y", "é中", "1"])
         if kind == "roundtrip":
             case["chain"] = rng.choice([1, 1, 2, 2, 3, 4])
@@ -471,6 +546,35 @@ class C01(Prop):
         yield {**lay, "v06": "0.5.12", "info": []}
         yield {**lay, "cls": "srr", "shapes": [[1, 2], [1, 2]], "elements": [el("A", bits=[[1, 2], [3, 4]])], "config": srr, "legacy_class": True}
         yield {**lay, "cls": "spot", "config": {"class": "spot", "spotsize": t(10.0), "spotsize_y": t(20.0)}}
+        # no calibration point anywhere in the laser, calibrations nevertheless not the default one (unit entered before
+        # any standard was measured): identity line, signed-zero intercept, fitted line, built-in / custom weighting
+        e0 = {**cal0, "unit": "ppm"}
+        e1 = {**cal0, "weights": "1/x", "rsq": t(0.5)}
+        e2 = {**cal0, "weights": {"name": "custom", "values": []}, "error": t(0.25)}
+        e3 = {**cal0, "intercept": t(-0.0)}
+        e4 = {**cal0, "intercept": t(2.0), "gradient": t(0.5), "unit": "µg/g", "weights": "1/(y^2)"}
+        three = [el("Ca44"), el("P31", "<f4", [[7]]), el("Zn66", "<i4", [[9]])]
+        for extra in ({"chain": 1}, {"chain": 2}, {"kind": "layouts"}):
+            b = {**base, **extra}
+            if b["kind"] == "layouts":
+                b = {**lay, "info": [], "legacy_class": False}
+            yield {**b, "cals": [[0, e0]]}
+            yield {**b, "cals": [[0, e3]]}
+            yield {**b, "elements": three, "cals": [[0, e0], [1, e1], [2, e2]]}
+            yield {**b, "elements": three, "cals": [[2, e4], [0, e2]]}
+            yield {**b, "cls": "spot", "config": {"class": "spot", "spotsize": t(10.0), "spotsize_y": t(20.0)}, "elements": three,
+                   "cals": [[1, e1]]}
+            yield {**b, "cls": "srr", "shapes": [[1, 1], [1, 1]], "config": srr,
+                   "elements": [el("Ca44", n=2), el("P31", n=2)], "cals": [[0, e2], [1, e0]]}
+        # separator characters in element names, all three layouts and the current one: a name that continues another
+        # element's name past the separator, two names that share the text before it, separator first / last / alone
+        for names in (["Fe56_corr"], ["Zn66_norm_Ca44", "Zn66"], ["Fe56_corr", "Fe56_norm", "Fe56"], ["_", "__", "_a", "a_"],
+                      ["Ca44-bg", "Ca44", "a.b", "a b", "a"], ["x:y", "x/y", "x|y", "x,y", "x;y", "x+y", "x=y", "x"]):
+            els = [el(n, bits=[[t(float(i))]]) for i, n in enumerate(names)]
+            cs = [[i, {**calx, "intercept": t(float(i)), "unit": "u%d" % i}] for i in range(len(names))][::-1]
+            yield {**base, "elements": els, "cals": cs, "chain": 2}
+            yield {**lay, "elements": els, "cals": cs}
+            yield {**lay, "elements": els, "cals": cs[:1], "v06": "0.6.7", "v07": "0.7.3"}
         # known findings (targeted only)
         yield {**base, "cls": "srr", "shapes": [[1, 2], [2, 1]], "elements": [{"name": "A", "dtype": "<f8", "bits": [[1, 2], [3, 4]]}],
                "config": srr, "expect_known": "C01-srr-unequal-layers-unsaveable"}
@@ -509,6 +613,40 @@ class C01(Prop):
                 f.add("name:combining")
             if "\x00" in n:
                 f.add("name:inner-NUL")
+            if "_" in n:
+                f.add("name:underscore")
+                if n.count("_") > 1:
+                    f.add("name:underscore-twice")
+                if n.startswith("_") or n.endswith("_"):
+                    f.add("name:underscore-at-end")
+            if any(c in n for c in SEP_SINGLE if c != "_"):
+                f.add("name:separator")
+        names = [e["name"] for e in case["elements"]]
+        for c in SEP_SINGLE:
+            heads = [n.split(c)[0] for n in names if c in n]
+            tag = "underscore" if c == "_" else "separator"
+            if len(set(heads)) < len(heads):
+                f.add(f"name:{tag}-shared-head")       # 'Fe56_corr' and 'Fe56_norm'
+            if any(h in names for h in heads):
+                f.add(f"name:{tag}-head-is-element")   # 'A' and 'A_b'
+        cals = [c for _, c in case["cals"]]
+        if cals and all(len(c["points"]) == 0 for c in cals):
+            nd = [c for c in cals if c["unit"] != "" or c["weights"] != "Equal" or c["rsq"] is not None or c["error"] is not None]
+            ident = [tokf(c["intercept"]) == 0.0 and tokf(c["gradient"]) == 1.0 for c in nd]
+            if nd:
+                f.add("cal:all-empty-nondefault")
+                if any(ident):
+                    f.add("cal:all-empty-nondefault:identity")
+                if not all(ident):
+                    f.add("cal:all-empty-nondefault:fitted")
+                if any(ident) and not all(ident):
+                    f.add("cal:all-empty-nondefault:mixed")
+                if any(not isinstance(c["weights"], str) for c in nd):
+                    f.add("cal:all-empty-nondefault:custom-weighting")
+                if any(isinstance(c["weights"], str) and c["weights"] != "Equal" for c in nd):
+                    f.add("cal:all-empty-nondefault:builtin-weighting")
+                if any(c["rsq"] is not None or c["error"] is not None for c in nd):
+                    f.add("cal:all-empty-nondefault:rsq-or-error")
         lens = set()
         if len(case["cals"]) < len(case["elements"]):
             f.add("cal:defaulted-element")
@@ -664,8 +802,13 @@ class C01(Prop):
                 yield {**case, "cals": case["cals"][:k] + [[i, {**c, "unit": ""}]] + case["cals"][k + 1:]}
         for i, e in enumerate(els):
             if len(e["name"]) > 1:
-                for nm in (e["name"][:1], e["name"][-1:], e["name"][: len(e["name"]) // 2]):
-                    if nm and nm not in [x["name"] for x in els]:
+                cands = [e["name"][:1], e["name"][-1:], e["name"][: len(e["name"]) // 2]]
+                for c in SEP_SINGLE:  # keep one separator: 'Fe56_corr_x' -> 'F_c', 'Fe56_corr'
+                    if c in e["name"]:
+                        head, tail = e["name"].split(c, 1)
+                        cands += [head[:1] + c + tail[:1], head + c + tail.split(c)[0]]
+                for nm in cands:
+                    if nm and nm != e["name"] and nm not in [x["name"] for x in els]:
                         yield {**case, "elements": els[:i] + [{**e, "name": nm}] + els[i + 1:]}
             if e["dtype"] != "<f8":
                 yield {**case, "elements": els[:i] + [{**e, "dtype": "<f8"}] + els[i + 1:]}
